@@ -21,10 +21,13 @@ _installed = [False]
 _inspect_file = [None]
 
 
-def _inspect_filename():
+def _extra_files():
+    """Files outside sigtools whose lines can be made yield points too: bit 1 inspect.py,
+    bit 2 weakref.py (WeakKeyDictionary, the bound-wrapper cache, is Python code)."""
     if _inspect_file[0] is None:
         import inspect
-        _inspect_file[0] = inspect.__file__
+        import weakref
+        _inspect_file[0] = {inspect.__file__: 1, weakref.__file__: 2}
     return _inspect_file[0]
 
 
@@ -35,10 +38,11 @@ def _line(code, line):
         if s is None:
             return None
         return s._on_line(code, line)
-    if s is not None and s.inspect_lines and fn == _inspect_filename():
-        return s._on_line(code, line)
-    if fn == _inspect_filename():
-        return None         # never DISABLE inspect.py: a later run may instrument it
+    bit = _extra_files().get(fn)
+    if bit:
+        if s is not None and (int(s.inspect_lines) & bit):
+            return s._on_line(code, line)
+        return None         # never DISABLE these: a later run may instrument them
     return _mon.DISABLE
 
 
@@ -150,6 +154,7 @@ class Scheduler(object):
         self.trace = []             # (global step, from, to, code name, line)
         self.errors = []
         self.in_call = [False] * self.n
+        self.cur_code = self.cur_line = None
 
     # -- called in the running thread ----------------------------------------
     def _on_line(self, code, line):
@@ -158,6 +163,7 @@ class Scheduler(object):
             return None
         self.step += 1
         self.local_steps[cur] += 1
+        self.cur_code, self.cur_line = code, line
         if self.step > self.step_cap:
             self.capped = True
             return None
